@@ -256,6 +256,8 @@ def check_nonce_helper(rep, facts, hkey, base_idx, seq_idx, rule):
     if not shape_ok:
         loop = _nonce_zip_loop_form(rep, facts, a, rt, base_idx, rule)
         if loop is None:
+            loop = _nonce_elementwise_form(rep, facts, a, rt, base_idx, rule)
+        if loop is None:
             loop = _nonce_loop_form(rep, facts, a, rt, base_idx, rule)
         if loop is None:
             rep.undecided(rule, fn, 'xor-shape', pp(rt)[:300],
@@ -342,6 +344,170 @@ def _check_counter_writer(rep, facts, a, fn, l, writer, base_idx, seq_idx, same_
     rep.check(pos_ok, rule, fn, 'counter-position', found,
               'the %d bytes ending at the end of the nonce buffer: buf[len-%d ..]' % (nbytes, nbytes), where(a, wsite))
     return True
+
+
+def _iter_layout(a, nxt):
+    """what one `next()` of a loop iterator hands out: {projection path of the Some payload: ('elem', buffer ref term) | ('index',)}
+    plus the buffer refs whose whole length the loop runs over; None if the iterator is not understood"""
+    it = a.deref_val(nxt[2][0], a.term_point(nxt[3]))
+    src = it[2] if it[0] == 'mem' else it
+    while src[0] == 'call' and src[1] == 'core::iter::IntoIterator::into_iter' and len(src[2]) == 1:
+        src = src[2][0]
+
+    def leaf(x):
+        if x[0] == 'call' and (x[1].endswith('::iter_mut') or x[1].endswith('::iter')) and len(x[2]) == 1 and 'slice' in x[1] or \
+                (x[0] == 'call' and x[1].rsplit('::', 1)[-1] in ('iter', 'iter_mut') and len(x[2]) == 1):
+            return x[2][0]
+        return None
+    out = {}
+    drivers = []
+    if src[0] == 'call' and src[1] == 'core::iter::Iterator::enumerate' and len(src[2]) == 1:
+        b = leaf(src[2][0])
+        if b is None:
+            return None
+        out[('0',)] = ('index',)
+        out[('1',)] = ('elem', b)
+        drivers.append(b)
+    elif src[0] == 'call' and src[1] == 'core::iter::Iterator::zip' and len(src[2]) == 2:
+        b0, b1 = leaf(src[2][0]), leaf(src[2][1])
+        if b0 is None or b1 is None:
+            return None
+        out[('0',)] = ('elem', b0)
+        out[('1',)] = ('elem', b1)
+        drivers += [b0, b1]
+    elif src[0] == 'agg' and src[2] == 'core::ops::Range::Range':
+        f = dict(zip(src[4], src[3]))
+        if f.get('start') != ('const', 'usize', 0) or not f.get('end') or f['end'][0] != 'len':
+            return None
+        out[()] = ('index',)
+        drivers.append(f['end'][1])
+    else:
+        b = leaf(src)
+        if b is None:
+            return None
+        out[()] = ('elem', b)
+        drivers.append(b)
+    return out, drivers
+
+
+def _payload_path(t):
+    """t = projection (fields) of the Some payload of a next() call -> (path tuple, next call term) or (None, None)"""
+    path = []
+    x = t
+    while x[0] == 'field' and x[1].isdigit():
+        if x[2][0] == 'variant' and x[2][1] == 'Some' and x[1] == '0':
+            c = x[2][2]
+            if c[0] == 'call' and c[1] == 'core::iter::Iterator::next':
+                return tuple(reversed(path)), c
+            return None, None
+        path.append(x[1])
+        x = x[2]
+    return None, None
+
+
+def _nonce_elementwise_form(rep, facts, a, rt, base_idx, rule):
+    """out[k] = base[k] ^ buf[k] for every position k of one loop — whatever the positions are spelled with (zip, enumerate +
+    indexing, a range index) and whether the result is the counter buffer itself or a third zeroed buffer.
+    -> (counter buffer local, its init, encoder writer) or None (silent when the shape is another one)"""
+    if rt[0] != 'mem' or rt[4]:
+        return None
+    l_out, init_out, writers = rt[1], rt[2], rt[3]
+    enc = [w for w in writers if w[2][0] == 'call']
+    sts = [w for w in writers if w[2][0] in ('store?', 'store')]
+    if len(sts) != 1 or len(enc) > 1 or len(writers) != len(enc) + 1:
+        return None
+    ssite = sts[0][0]
+    st = a.stmt_at(ssite)
+    if st.get('k') != 'assign' or st['rv'].get('k') != 'binop' or st['rv'].get('op') != 'BitXor':
+        return None
+    v = a.val_rv(st['rv'], ssite)
+
+    def access(t, is_dest=False):
+        """-> (buffer identity, next-call site) of an element access"""
+        if is_dest:
+            if st['place']['p'] == ['deref']:
+                ref = a.val_local(st['place']['l'], ssite)
+                pth, nx = _payload_path(ref)
+                if nx is None:
+                    return None
+                lay = _iter_layout(a, nx)
+                if lay is None or lay[0].get(pth, (None,))[0] != 'elem':
+                    return None
+                return _buf_id(lay[0][pth][1]), nx[3], lay
+            wp = sts[0][1]
+            if wp and len(wp) == 2 and wp[0] == ('f', '0') and wp[1][0] == 'i':
+                pth, nx = _payload_path(wp[1][1])
+                lay = _iter_layout(a, nx) if nx is not None else None
+                if lay is None or lay[0].get(pth, (None,))[0] != 'index':
+                    return None
+                return ('local', l_out), nx[3], lay
+            return None
+        # operand: element read by index, or deref of an iterator item
+        if t[0] == 'load' and not t[2]:
+            pth, nx = _payload_path(t[1])
+            if nx is None:
+                return None
+            lay = _iter_layout(a, nx)
+            if lay is None or lay[0].get(pth, (None,))[0] != 'elem':
+                return None
+            return _buf_id(lay[0][pth][1]), nx[3], lay
+        path = t[2] if t[0] == 'load' else (t[4] if t[0] == 'mem' else None)
+        if path and path[-1][0] == 'i' and all(e[0] == 'f' for e in path[:-1]):
+            pth, nx = _payload_path(path[-1][1])
+            lay = _iter_layout(a, nx) if nx is not None else None
+            if lay is None or lay[0].get(pth, (None,))[0] != 'index':
+                return None
+            base = t[1] if t[0] == 'load' else ('local', t[1])
+            return (base if base[0] in ('param', 'local') else None), nx[3], lay
+        return None
+
+    def _buf_id(ref):
+        b, fs = addr_fields(ref)
+        return b if fs == ['0'] and b[0] in ('param', 'local') else None
+    d = access(None, True)
+    o1, o2 = access(v[2]), access(v[3])
+    if d is None or o1 is None or o2 is None or None in (d[0], o1[0], o2[0]):
+        return None
+    if len({d[1], o1[1], o2[1]}) != 1:
+        return None            # the three accesses are not tied to the same loop step
+    fn = a.body.key
+    bufs = {o1[0], o2[0]}
+    base = ('param', base_idx)
+    if base not in bufs:
+        rep.bad(rule, fn, 'xor-loop-operands', '%s ^ %s' % (o1[0], o2[0]), 'one operand is the base nonce', where(a, ssite))
+        return None
+    other = (bufs - {base}).pop() if len(bufs) == 2 else None
+    if other is None or other[0] != 'local':
+        return None
+    cl = other[1]
+    if d[0] == ('local', cl) and enc:
+        cinit, cenc = init_out, enc[0]                      # in place: the result is the counter buffer
+    elif d[0] == ('local', l_out) and not enc and is_zero_init(facts, init_out):
+        cv = a.val_local(cl, ssite)                          # a third buffer: the counter buffer is the other operand
+        if cv[0] != 'mem' or cv[4]:
+            return None
+        cw = [w for w in cv[3] if w[2][0] == 'call']
+        if len(cw) != 1 or len(cv[3]) != 1 or not cw[0][3]:
+            return None
+        cinit, cenc = cv[2], cw[0]
+        if a.body.local_ty(cl) != a.body.local_ty(l_out):
+            return None
+    else:
+        return None
+    # the loop runs over a whole nonce-typed buffer
+    lay = d[2]
+    tys = set()
+    for drv in lay[1]:
+        b, fs = addr_fields(drv)
+        if fs != ['0'] or b[0] not in ('param', 'local'):
+            return None
+        tys.add(a.body.local_ty(b[1]).lstrip('&').strip())
+    if tys != {a.body.local_ty(cl)}:
+        return None
+    rep.ok(rule, fn, 'xor-loop-body', 'out[k] = base_nonce[k] ^ counter[k] for every position k of one loop over a nonce-sized buffer')
+    rep.check(a.cfg.dominates(cenc[0][0], ssite[0]), rule, fn, 'xor-after-counter', 'encoder at bb%d, xor loop at bb%d' % (cenc[0][0], ssite[0]),
+              'the counter is written before the XOR loop', where(a, ssite))
+    return cl, cinit, cenc
 
 
 def _nonce_zip_loop_form(rep, facts, a, rt, base_idx, rule):
